@@ -60,6 +60,10 @@ func allAccounts(w *world.World) map[string]*world.Account {
 
 // makeWarm runs the mixed scripts for `blocks` blocks, asks the scripts what
 // they would send next, stops the node and keeps its directory.
+// onWarmFail, when set, sees a warm-up history that could not be completed before its nodes are closed (C18
+// decides node deaths, also those that ordinary traffic causes).
+var onWarmFail func(seed int64, res *drive.Result)
+
 func makeWarm(seed int64, blocks int, fr int64, scripts []string) (*warm, error) {
 	params := world.Params{Frankenstein: fr, NumCandidates: 3, NumEthUsers: 3, TopValidators: 5, ChainID: fmt.Sprintf("OneLedger-warm-%d-%d", seed, blocks)}
 	wm := &warm{seed: seed, empty: map[int]hist.State{}}
@@ -80,6 +84,9 @@ func makeWarm(seed int64, blocks int, fr int64, scripts []string) (*warm, error)
 	res := drive.Run(cfg)
 	if res.Err != nil {
 		if res.R != nil {
+			if onWarmFail != nil {
+				onWarmFail(seed, res)
+			}
 			res.R.Close()
 		}
 		return nil, res.Err
